@@ -125,7 +125,10 @@ PROPS = {
             "note": "model fidelity sampled. Proved panic-free: the four slice/index shapes of the Parse loop and nil request/response in "
                     "callbacks; every other panic source is total by construction in the model and observed only through the recover log line. "
                     "Non-blocking readers assume nbio delivers no data callback after CloseWithError (A1, property C03). With ReadLimit = 0 "
-                    "nothing bounds the retained bytes (an oversized Content-Length body is cached whole before OnBody rejects it). The body "
+                    "no constant bounds the retained bytes (an unfinished line is kept whole: c08_retained_readlimit0_counterexample; an "
+                    "oversized Content-Length body is cached until OnBody rejects it); what holds for every ReadLimit is "
+                    "c08_retained_readlimit0_partial: the retained bytes are a suffix of the bytes received, and inside a body fewer than the "
+                    "block still needs. The body "
                     "bound is proved for the model's bodyHeld counter, which is proved to be the sum of the body events since the last "
                     "complete event along every chain (c08_body_held_is_event_sum, c08_body_bound_events: after every Parse call; c08_body_bound_every_prefix: after "
                     "the k first callbacks for every k, whatever the outcome of the chain, errors included), and for the "
